@@ -241,6 +241,30 @@ def run(ctx):
                                           {'op': opname, 'nrows': n, 'buffersize': bs, 'bad_row': bad, 'cache': c, 'left': left})
                             for f in os.listdir(tmpd):
                                 os.unlink(os.path.join(tmpd, f))
+        # hundreds of chunk files (limits on open files or merge fan-in live here): everything must still be gone
+        for n, bs in ((503, 2), (260, 1)):
+            t = [['k', 'v']] + [[(i * 7) % 11, i] for i in range(n)]
+            want = [('k', 'v')] + sorted(((r[0], r[1]) for r in t[1:]), key=lambda r: r[0])
+            for c in (True, False):
+                for stop in (None, 1, 5):
+                    v = etl.sort(t, 'k', buffersize=bs, cache=c, tempdir=tmpd)
+                    it = iter(v)
+                    got = list(it) if stop is None else [next(it) for _ in range(stop)]
+                    it2 = iter(v)
+                    got2 = list(it2)
+                    wrong = (stop is None and got != want) or got2 != want
+                    del it, it2, v
+                    left = nfiles(tmpd, collect=True)
+                    ctx.case(('sort', 'many-chunks', n, bs, c, stop))
+                    ctx.count('many-chunks')
+                    if wrong:
+                        ctx.spec_fail('sort|wrong-rows|many-chunks', 'a %d-chunk sort does not yield the complete sorted sequence' % (-(-n // bs)),
+                                      {'nrows': n, 'buffersize': bs, 'cache': c, 'abandon_after': stop})
+                    if left:
+                        ctx.spec_fail('sort|leak|many-chunks', '%d temporary file(s) left after a %d-chunk sort was released' % (left, -(-n // bs)),
+                                      {'nrows': n, 'buffersize': bs, 'cache': c, 'abandon_after': stop, 'left': left})
+                        for f in os.listdir(tmpd):
+                            os.unlink(os.path.join(tmpd, f))
     finally:
         gc.collect()
         shutil.rmtree(tmpd, ignore_errors=True)
